@@ -6,13 +6,13 @@ use std::os::unix::io::{AsRawFd, FromRawFd, OwnedFd, RawFd};
 use std::os::unix::net::UnixStream;
 use std::path::PathBuf;
 use std::sync::atomic::{AtomicU64, AtomicUsize, Ordering};
-use std::sync::{Arc, Condvar, Mutex};
+use std::sync::{Arc, Condvar, Mutex, RwLock};
 use std::time::{Duration, Instant};
 
 use vhost::vhost_user::message::{VhostUserProtocolFeatures, VhostUserShMemConfig, VhostUserSharedMsg};
 use vhost::vhost_user::{Backend, Frontend, Listener};
 use vhost_user_backend::bitmap::BitmapMmapRegion;
-use vhost_user_backend::{VhostUserBackend, VhostUserDaemon, VringMutex, VringRwLock, VringT};
+use vhost_user_backend::{VhostUserBackend, VhostUserBackendMut, VhostUserDaemon, VringMutex, VringRwLock, VringT};
 use virtio_queue::QueueT;
 use vm_memory::{GuestMemoryAtomic, GuestMemoryMmap};
 use vmm_sys_util::epoll::EventSet;
@@ -275,6 +275,120 @@ impl<V: VringT<GM> + Send + Sync + 'static> VhostUserBackend for Be<V> {
     }
 }
 
+/// The same recording back end through the non-interior-mutability trait, to be wrapped by the
+/// library's `Mutex<T>` / `RwLock<T>` adapters.  State is shared with the inner `Be`.
+pub struct BeMut<V>(pub Arc<Be<V>>);
+
+impl<V: VringT<GM> + Send + Sync + 'static> VhostUserBackendMut for BeMut<V> {
+    type Bitmap = B;
+    type Vring = V;
+    fn num_queues(&self) -> usize {
+        VhostUserBackend::num_queues(&*self.0)
+    }
+    fn max_queue_size(&self) -> usize {
+        VhostUserBackend::max_queue_size(&*self.0)
+    }
+    fn features(&self) -> u64 {
+        VhostUserBackend::features(&*self.0)
+    }
+    fn acked_features(&mut self, features: u64) {
+        VhostUserBackend::acked_features(&*self.0, features)
+    }
+    fn protocol_features(&self) -> VhostUserProtocolFeatures {
+        VhostUserBackend::protocol_features(&*self.0)
+    }
+    fn reset_device(&mut self) {
+        VhostUserBackend::reset_device(&*self.0)
+    }
+    fn set_event_idx(&mut self, enabled: bool) {
+        VhostUserBackend::set_event_idx(&*self.0, enabled)
+    }
+    fn get_config(&self, offset: u32, size: u32) -> Vec<u8> {
+        VhostUserBackend::get_config(&*self.0, offset, size)
+    }
+    fn set_config(&mut self, offset: u32, buf: &[u8]) -> std::io::Result<()> {
+        VhostUserBackend::set_config(&*self.0, offset, buf)
+    }
+    fn update_memory(&mut self, mem: GM) -> std::io::Result<()> {
+        VhostUserBackend::update_memory(&*self.0, mem)
+    }
+    fn set_backend_req_fd(&mut self, backend: Backend) {
+        VhostUserBackend::set_backend_req_fd(&*self.0, backend)
+    }
+    fn get_shared_object(&mut self, uuid: VhostUserSharedMsg) -> std::io::Result<std::fs::File> {
+        VhostUserBackend::get_shared_object(&*self.0, uuid)
+    }
+    fn queues_per_thread(&self) -> Vec<u64> {
+        VhostUserBackend::queues_per_thread(&*self.0)
+    }
+    fn exit_event(&self, thread_index: usize) -> Option<(EventConsumer, EventNotifier)> {
+        VhostUserBackend::exit_event(&*self.0, thread_index)
+    }
+    fn handle_event(&mut self, device_event: u16, evset: EventSet, vrings: &[V], thread_id: usize) -> std::io::Result<()> {
+        VhostUserBackend::handle_event(&*self.0, device_event, evset, vrings, thread_id)
+    }
+    fn get_shmem_config(&self) -> std::io::Result<VhostUserShMemConfig> {
+        VhostUserBackend::get_shmem_config(&*self.0)
+    }
+    fn check_device_state(&self) -> std::io::Result<()> {
+        VhostUserBackend::check_device_state(&*self.0)
+    }
+}
+
+/// how the recording back end is handed to the daemon
+#[derive(Clone, Copy, Debug, PartialEq, Eq, Hash, serde::Serialize, serde::Deserialize)]
+pub enum Wrap {
+    /// Arc<Be>: the back end implements the interior-mutability trait itself
+    Direct,
+    /// Arc<Mutex<BeMut>>: library's Mutex adapter
+    Mutex,
+    /// Arc<RwLock<BeMut>>: library's RwLock adapter
+    RwLock,
+}
+
+pub enum DaemonAny<V: VringT<GM> + Clone + Send + Sync + 'static> {
+    Direct(VhostUserDaemon<Arc<Be<V>>>),
+    Mutex(VhostUserDaemon<Arc<Mutex<BeMut<V>>>>),
+    RwLock(VhostUserDaemon<Arc<RwLock<BeMut<V>>>>),
+}
+
+macro_rules! each {
+    ($self:expr, $d:ident => $e:expr) => {
+        match $self {
+            DaemonAny::Direct($d) => $e,
+            DaemonAny::Mutex($d) => $e,
+            DaemonAny::RwLock($d) => $e,
+        }
+    };
+}
+
+impl<V: VringT<GM> + Clone + Send + Sync + 'static> DaemonAny<V> {
+    pub fn start(&mut self, l: &mut Listener) -> vhost_user_backend::Result<()> {
+        each!(self, d => d.start(l))
+    }
+    pub fn wait(&mut self) -> vhost_user_backend::Result<()> {
+        each!(self, d => d.wait())
+    }
+    pub fn request_shutdown(&self) {
+        each!(self, d => d.request_shutdown())
+    }
+    pub fn shutdown_handle(&self) -> Option<vhost_user_backend::ShutdownHandle> {
+        each!(self, d => d.shutdown_handle())
+    }
+    pub fn serve(&mut self, p: &std::path::Path) -> vhost_user_backend::Result<()> {
+        each!(self, d => d.serve(p))
+    }
+    pub fn n_workers(&self) -> usize {
+        each!(self, d => d.get_epoll_handlers().len())
+    }
+    pub fn register_listener(&self, t: usize, fd: RawFd, id: u64) -> std::io::Result<()> {
+        each!(self, d => d.get_epoll_handlers()[t].register_listener(fd, EventSet::IN, id))
+    }
+    pub fn unregister_listener(&self, t: usize, fd: RawFd, id: u64) -> std::io::Result<()> {
+        each!(self, d => d.get_epoll_handlers()[t].unregister_listener(fd, EventSet::IN, id))
+    }
+}
+
 static SOCK_SEQ: AtomicU64 = AtomicU64::new(0);
 
 pub fn sock_path() -> PathBuf {
@@ -284,7 +398,7 @@ pub fn sock_path() -> PathBuf {
 }
 
 pub struct Fx<V: VringT<GM> + Clone + Send + Sync + 'static> {
-    pub daemon: Option<VhostUserDaemon<Arc<Be<V>>>>,
+    pub daemon: Option<DaemonAny<V>>,
     pub be: Arc<Be<V>>,
     /// harness end of the connection (raw); a Frontend can be built from a dup of it
     pub peer: Option<UnixStream>,
@@ -296,14 +410,26 @@ pub struct Fx<V: VringT<GM> + Clone + Send + Sync + 'static> {
 impl<V: VringT<GM> + Clone + Send + Sync + 'static> Fx<V> {
     /// create the daemon (workers start), register the barrier listeners
     pub fn new(cfg: BeCfg) -> Result<Self, String> {
+        Self::new_wrapped(cfg, Wrap::Direct)
+    }
+
+    pub fn new_wrapped(cfg: BeCfg, wrap: Wrap) -> Result<Self, String> {
         let be: Arc<Be<V>> = Be::new(cfg);
         let mem: GM = GuestMemoryAtomic::new(GuestMemoryMmap::<B>::new());
-        let daemon = VhostUserDaemon::new("vverif-daemon".to_string(), be.clone(), mem).map_err(|e| format!("daemon new: {e}"))?;
+        let name = "vverif-daemon".to_string();
+        let daemon = match wrap {
+            Wrap::Direct => DaemonAny::Direct(VhostUserDaemon::new(name, be.clone(), mem).map_err(|e| format!("daemon new: {e}"))?),
+            Wrap::Mutex => DaemonAny::Mutex(
+                VhostUserDaemon::new(name, Arc::new(Mutex::new(BeMut(be.clone()))), mem).map_err(|e| format!("daemon new: {e}"))?,
+            ),
+            Wrap::RwLock => DaemonAny::RwLock(
+                VhostUserDaemon::new(name, Arc::new(RwLock::new(BeMut(be.clone()))), mem).map_err(|e| format!("daemon new: {e}"))?,
+            ),
+        };
         let mut notifiers = Vec::new();
-        let handlers = daemon.get_epoll_handlers();
-        for (t, h) in handlers.iter().enumerate() {
+        for t in 0..daemon.n_workers() {
             let (c, n) = new_event_consumer_and_notifier(EventFlag::NONBLOCK).map_err(|e| e.to_string())?;
-            h.register_listener(c.as_raw_fd(), EventSet::IN, be.barrier_id()).map_err(|e| format!("register barrier: {e}"))?;
+            daemon.register_listener(t, c.as_raw_fd(), be.barrier_id()).map_err(|e| format!("register barrier: {e}"))?;
             be.st.lock().unwrap().barrier_fds[t] = Some(c);
             notifiers.push(n);
         }
@@ -441,4 +567,73 @@ pub fn dup_fd(fd: RawFd) -> OwnedFd {
     let n = unsafe { libc::fcntl(fd, libc::F_DUPFD_CLOEXEC, 3) };
     assert!(n >= 0, "dup");
     unsafe { OwnedFd::from_raw_fd(n) }
+}
+
+// ------------------------------------------------------------------ reconnecting raw session
+
+use crate::rawclient::{RawClient, RcErr};
+use crate::spec;
+
+/// A raw client session on a fixture that survives refused requests: the daemon ends a connection
+/// on any request error, so after a refusal the harness reconnects to the same daemon (whose
+/// device state persists) and re-negotiates.
+pub struct Sess<V: VringT<GM> + Clone + Send + Sync + 'static> {
+    pub fx: Fx<V>,
+    pub cl: RawClient,
+    /// protocol features to acknowledge on (re)connect (None: everything offered)
+    pub ack_pf: Option<u64>,
+    pub reconnects: usize,
+}
+
+impl<V: VringT<GM> + Clone + Send + Sync + 'static> Sess<V> {
+    pub fn open(mut fx: Fx<V>, ack_pf: Option<u64>) -> Result<Self, String> {
+        fx.connect()?;
+        let cl = RawClient::new(fx.peer.as_ref().unwrap().try_clone().unwrap());
+        let mut s = Sess { fx, cl, ack_pf, reconnects: 0 };
+        s.negotiate_pf().map_err(|e| format!("negotiation: {e}"))?;
+        Ok(s)
+    }
+    /// GET_FEATURES, GET_PROTOCOL_FEATURES, SET_PROTOCOL_FEATURES (no SET_FEATURES)
+    pub fn negotiate_pf(&mut self) -> Result<(u64, u64), RcErr> {
+        let (b, _) = self.cl.get(spec::fe::GET_FEATURES, &[], &[])?;
+        let feats = spec::rd_u64(&b, 0);
+        let (b, _) = self.cl.get(spec::fe::GET_PROTOCOL_FEATURES, &[], &[])?;
+        let pf = spec::rd_u64(&b, 0);
+        let ack = self.ack_pf.unwrap_or(pf) | (1 << spec::pf::REPLY_ACK);
+        self.cl.send(spec::fe::SET_PROTOCOL_FEATURES, false, &spec::b_u64(ack), &[])?;
+        Ok((feats, pf))
+    }
+    pub fn reconnect(&mut self) -> Result<(), String> {
+        self.fx.reconnect()?;
+        self.cl = RawClient::new(self.fx.peer.as_ref().unwrap().try_clone().unwrap());
+        self.reconnects += 1;
+        self.negotiate_pf().map(|_| ()).map_err(|e| format!("re-negotiation after reconnect: {e}"))
+    }
+    /// request with NEED_REPLY; Ok(true) accepted, Ok(false) refused (connection is renewed)
+    pub fn acked(&mut self, code: u32, body: &[u8], fds: &[RawFd]) -> Result<bool, String> {
+        match self.cl.ack(code, body, fds) {
+            Ok(0) => Ok(true),
+            Ok(_) | Err(RcErr::Closed) => {
+                self.reconnect()?;
+                Ok(false)
+            }
+            Err(e) => Err(format!("request {code}: {e}")),
+        }
+    }
+    /// reply-bearing request; Ok(None) when the daemon refused (connection is renewed)
+    pub fn get(&mut self, code: u32, body: &[u8], fds: &[RawFd]) -> Result<Option<(Vec<u8>, Vec<OwnedFd>)>, String> {
+        match self.cl.get(code, body, fds) {
+            Ok(r) => Ok(Some(r)),
+            Err(RcErr::Closed) => {
+                self.reconnect()?;
+                Ok(None)
+            }
+            Err(e) => Err(format!("request {code}: {e}")),
+        }
+    }
+    pub fn close(self) {
+        let Sess { fx, cl, .. } = self;
+        drop(cl);
+        fx.teardown();
+    }
 }
